@@ -101,7 +101,9 @@ func genConcBase(r *simrt.Rand, gc bool) *Plan {
 	}
 	for c := 0; c < nc; c++ {
 		n := 3 + r.Intn(8)
-		ops := genSeqOps(r, n, nk, mix, false, &vseq)
+		// CID primary: callers address one block through CIDs that differ in
+		// version/codec but share the multihash (the same index key)
+		ops := genSeqOps(r, n, nk, mix, p.Cfg.Primary == "CID", &vseq)
 		for i := range ops {
 			if ops[i].K == "put" {
 				if ops[i].VLen < 4 {
